@@ -187,16 +187,18 @@ def source_of(desc: Desc, uid: int) -> Tuple[str, str]:
             lines += [f"def {m}(self) -> int:", "    return 0", ""]
     prev = None
     cname = ""
+    declared_so_far: set = set()
     for i, (fs, ms, ov) in enumerate(desc.levels):
         last = i == len(desc.levels) - 1
         cname = f"K{uid}" if last else f"K{uid}L{i}"
         declared: set = set()
+        declared_so_far |= {n for n, _ in fs}
 
         def target(name: str, in_body: bool) -> str:
             if by_obj:
                 if in_body and name in declared:
                     return name  # the Field object bound earlier in the class body
-                if not in_body and name in fieldset:
+                if not in_body and name in fieldset and name in declared_so_far:
                     return f"_F({cname}, {name!r})"
                 if name not in fieldset and desc.style == "both":
                     return name  # the module-level function
@@ -497,6 +499,8 @@ def run(report, tier: str, seed: int):
                 with_methods = (view in ("ser", "sschema") and desc.style in JSON_METHOD_STYLES) or (view == "gql_out" and desc.style in GQL_METHOD_STYLES)
                 exp = perm if with_methods else [e for e in perm if e in fields]
                 vtag = tag + ("+field-under-absent-method" if (not with_methods and sub) else "")
+                if with_methods and view != "gql_out" and desc.style == "resolver_serialized" and any(sp is not None for _, ms, _ in desc.levels for _, sp in ms):
+                    vtag += "+order-given-to-resolver"
                 if isinstance(got, Exception):
                     fail("crash", view, desc, vtag, repr(got), exp, f"raised {got!r}", r.source)
                     continue
